@@ -5,9 +5,21 @@ FUNCTIONS = [
     'circus.watcher:Watcher.reap_processes',
     'circus.watcher:Watcher._start',
     'circus.watcher:Watcher._stop',
+    # periodic check: the arbiter collects every terminated child (no zombie outlives it); manage_processes unlists only
+    # workers the kernel reports dead, and the processes-table writers are exactly the listed functions
+    'circus.arbiter:Arbiter.reap_processes',
+    'circus.arbiter:Arbiter.iter_watchers',
+    'circus.watcher:Watcher.manage_processes',
 ]
+EXCLUDE_CLAUSES = ['post[dead-removed-are-reaped]:Watcher.manage_processes']
 LEMMAS = []
-FRAMES = []
+FRAMES = [
+    {'name': 'processes-writers', 'kind': 'container_mutation', 'attr': 'processes',
+     'what': 'the process table is mutated only by reap_process, manage_processes, remove_expired_processes, spawn_process',
+     'allowed': ['circus.watcher:Watcher.__init__', 'circus.watcher:Watcher.reap_process',
+                 'circus.watcher:Watcher.manage_processes', 'circus.watcher:Watcher.remove_expired_processes',
+                 'circus.watcher:Watcher.spawn_process'], 'exclude_modules': ['circus.plugins', 'circus.stats']},
+]
 ASSUMPTIONS = ['A-PY', 'T-PSUTIL', 'T-KERNEL', 'A-PIDREUSE', 'A-HOOKPURE', 'A-ZMQSEND', 'A-PROCCLS',
                'max_retry != -1 is not assumed: the retry loop is verified for partial correctness only']
 TRUSTED = []
@@ -17,5 +29,6 @@ TECHNIQUE = 'contract-based deductive verification (ghost kernel child table vs 
 LEVEL_TEXT = ('Accounting against a ghost kernel child table: a child created by spawn_process is listed on '
               'return (known finding F-21 for the after_spawn-failure arm), reap_process unlists exactly the reaped '
               'pid and leaves no zombie, _start/_stop end in a stable status (active/stopped) with stopped '
-              'implying an empty table.')
+              'implying an empty table; Arbiter.reap_processes leaves no terminated child uncollected and publishes reap '
+              'events only for terminated pids; manage_processes unlists only workers reported dead.')
 LEVEL_NOTE = 'Trusted: kernel / psutil contracts.'
